@@ -31,6 +31,8 @@ package engine_test
 
 import (
 	"fmt"
+	"os"
+	"path/filepath"
 	"sort"
 	"strings"
 	"time"
@@ -60,6 +62,10 @@ type twShardM struct {
 	end       int64
 	indexID   uint64
 	rows      map[twKey]int64
+	maybe     map[twKey]int64 // written by an operation that was never acknowledged, or that is still in flight: present or absent
+	held      bool            // a write is in flight inside it right now
+	dataRel   string          // data / WAL directories relative to the store root, once seen
+	walRel    string
 	foreign   bool // owned by a partition of another store node (catalogue-only checks)
 	created   bool // a write reached the store for it: the engine must hold it
 	fuzzy     bool // a write into it returned an error: contents not judged
@@ -142,6 +148,34 @@ func (m *twModel) applyWrite(shard uint64, series int, ts int64, val int64, fail
 	if ts < s.start || ts >= s.end {
 		panic(core.InfraPanic("the catalogue routed a point into a group that does not contain it"))
 	}
+}
+
+func (m *twModel) noteHeld(h *twHold) {
+	s := m.shards[h.shard]
+	if s == nil {
+		panic(core.InfraPanic("held write into a shard the model does not know"))
+	}
+	if s.maybe == nil {
+		s.maybe = map[twKey]int64{}
+	}
+	s.maybe[twKey{engine.TwSeriesKey(h.series), h.ts}] = h.val
+	s.held = true
+}
+
+// bookHeld: the held write returned.  ok = acknowledged without error.
+func (m *twModel) bookHeld(h *twHold, ok bool) {
+	s := m.shards[h.shard]
+	if s == nil {
+		return
+	}
+	s.held = false
+	k := twKey{engine.TwSeriesKey(h.series), h.ts}
+	if ok {
+		delete(s.maybe, k)
+		s.rows[k] = h.val
+		s.created = true
+	}
+	// not acknowledged: the point stays in "maybe" (it may or may not have landed)
 }
 
 func (m *twModel) noteChange() {
@@ -343,6 +377,22 @@ func (m *twModel) judge(phase string, nt, after time.Time, full bool, killed str
 		rp := m.rps[s.rp]
 		es, inEng := o.eng[id]
 		cs := o.cat[id]
+		if inEng && es.DataPath != "" && r.root != "" {
+			if rel, ok := strings.CutPrefix(es.DataPath, r.root+"/"); ok {
+				s.dataRel = rel
+			}
+			if rel, ok := strings.CutPrefix(es.WalPath, r.root+"/"); ok {
+				s.walRel = rel
+			}
+		}
+		if s.held && tick {
+			s.state = "writing"
+			if mustExpired(rp, s, ntN) {
+				r.out.Probes["service ran while a write into an expiring shard was in flight"]++
+			} else {
+				r.out.Probes["service ran while a write into a live shard was in flight"]++
+			}
+		}
 		mustBeGone := rp.dur != 0 && s.end+rp.dur < ntN
 		mayBeGone := rp.dur != 0 && s.end+rp.dur < afterN
 		catRemoved := !cs.groupPresent || (cs.groupMarked && cs.shardPruned)
@@ -381,6 +431,20 @@ func (m *twModel) judge(phase string, nt, after time.Time, full bool, killed str
 				s.marked = true
 			}
 			if !inEng && catRemoved {
+				if left := m.leftOnDisk(s); left != "" {
+					s.expTicks++
+					if s.expTicks >= 2 {
+						v := &core.Violation{Property: r.prop, Kind: "expired_shard_not_removed", Attrs: m.attrs(s, ntN, "disk"),
+							Detail: fmt.Sprintf("service run at %s: %s is gone from the engine and the catalogue, but its files are still on disk: %s", twFmtRel(r.rel(nt)), m.describe(s, ntN), left)}
+						if r.report(v) {
+							s.waived = true
+						}
+						if r.stop {
+							return
+						}
+					}
+					continue
+				}
 				s.gone = true
 				r.out.Stats["shards_removed"]++
 				if len(s.rows) > 0 {
@@ -426,6 +490,11 @@ func (m *twModel) judge(phase string, nt, after time.Time, full bool, killed str
 			if cs.groupMarked || !cs.groupPresent {
 				s.marked = true
 			}
+			if tick && s.marked && !mayBeGone && inEng && !s.foreign {
+				// not judged: the deletion took effect (the group is invisible to queries) when the
+				// catalogue marked it; the shard itself survives until it expires under the new duration
+				r.out.Probes["group stays marked deleted while its shard is unexpired again (duration raised after the mark)"]++
+			}
 			if !s.foreign {
 				s.state = twStateOf(es, inEng)
 			}
@@ -450,7 +519,24 @@ func (m *twModel) judge(phase string, nt, after time.Time, full bool, killed str
 			if rp.dur == 0 {
 				kind = "unlimited_policy_lost_data"
 			}
-			v := &core.Violation{Property: r.prop, Kind: kind, Attrs: m.attrs(s, ntN, where),
+			at := m.attrs(s, ntN, where)
+			if where == "index" {
+				// evidence: what a query gets now, and whether points still inside the window are among the lost ones
+				got, err := engine.TwDump(r.eng, twDB, s.pt, s.id, 0)
+				_, detail := m.compareRows(s, got, err)
+				inWin := 0
+				for k := range s.rows {
+					if rp.dur == 0 || k.ts >= afterN-rp.dur {
+						inWin++
+					}
+				}
+				at["points_in_window"] = "no"
+				if inWin > 0 {
+					at["points_in_window"] = "yes"
+				}
+				bad += fmt.Sprintf("; reading the shard now: %s; %d of its %d points are still inside the retention window", detail, inWin, len(s.rows))
+			}
+			v := &core.Violation{Property: r.prop, Kind: kind, Attrs: at,
 				Detail: fmt.Sprintf("%s at %s: %s is not expired, but %s", phase, twFmtRel(r.rel(nt)), m.describe(s, ntN), bad)}
 			if r.report(v) {
 				s.waived = true
@@ -464,7 +550,7 @@ func (m *twModel) judge(phase string, nt, after time.Time, full bool, killed str
 			continue
 		}
 		// ---- contents
-		if s.created && !s.fuzzy && settled && (full || es.Opened) {
+		if s.created && !s.fuzzy && !s.held && settled && (full || es.Opened) {
 			got, err := engine.TwDump(r.eng, twDB, s.pt, s.id, 0)
 			r.out.Stats["shard_reads"]++
 			kind, detail := m.compareRows(s, got, err)
@@ -494,6 +580,25 @@ func (m *twModel) judge(phase string, nt, after time.Time, full bool, killed str
 			s.state = twStateOf(es, inEng)
 		}
 	}
+}
+
+func mustExpired(rp *twRPM, s *twShardM, at int64) bool { return rp.dur != 0 && s.end+rp.dur < at }
+
+// leftOnDisk names what is left of a shard's directories under the store root.
+func (m *twModel) leftOnDisk(s *twShardM) string {
+	if m.r.root == "" {
+		return ""
+	}
+	var left []string
+	for _, rel := range []string{s.dataRel, s.walRel} {
+		if rel == "" {
+			continue
+		}
+		if _, err := os.Stat(filepath.Join(m.r.root, rel)); err == nil {
+			left = append(left, rel)
+		}
+	}
+	return strings.Join(left, ", ")
 }
 
 func twShardOf(e engine.Engine, id uint64) (engine.TwShard, bool) {
@@ -529,6 +634,11 @@ func (m *twModel) compareRows(s *twShardM, got []engine.TwRow, err error) (strin
 		}
 		seen[k] = true
 		want, ok := s.rows[k]
+		if mv, isMaybe := s.maybe[k]; isMaybe && !ok {
+			if g.Has && g.Val == mv {
+				continue
+			}
+		}
 		switch {
 		case !ok:
 			extra = append(extra, fmt.Sprintf("{%s t=%s fi=%d}", g.Series, twFmtRel(g.Time-m.r.epoch.UnixNano()), g.Val))
